@@ -2,3 +2,6 @@
 //@trusted T2 std::mem::replace(dest, src) stores src in *dest and returns the previous value of *dest
 pub assume_specification<T> [core::mem::replace::<T>] (dest: &mut T, src: T) -> (r: T)
     ensures *final(dest) == src, r == *old(dest);
+//@trusted T2 std::mem::take(dest) returns the previous value of *dest (nothing is assumed about the Default value left behind)
+pub assume_specification<T: core::default::Default> [core::mem::take::<T>] (dest: &mut T) -> (r: T)
+    ensures r == *old(dest);
